@@ -156,13 +156,16 @@ func mergeX(s, d *TSpec, opt string, prior, v Val, cfg Cfg, plain bool) Val {
 		for _, kv := range v.M {
 			k := mergeX(su.Key, du.Key, "", ZeroVal(du.Key), kv.K, cfg, true)
 			found := -1
+			nk := normKeyForDedupe(du.Key, k)
 			for i := range out {
-				if Equal(du.Key, out[i].K, k) {
+				// Go's key equality: -0 and +0 are the same float key
+				if Equal(du.Key, normKeyForDedupe(du.Key, out[i].K), nk) {
 					found = i
 					break
 				}
 			}
 			if found >= 0 {
+				out[found].K = k // assignment stores the new key's bits (matters for -0 / +0)
 				if RefOmit(su.Elem, kv.V) {
 					out[found].V = ZeroVal(du.Elem)
 				} else {
